@@ -122,7 +122,7 @@ theorem wrap_same_behaviour (cc : CharClass) (src1 src2 : Text) (p : Block) (r1 
     (hp1 : parse cc src1 = .ok p) (hp2 : parse cc src2 = .ok (wrap p)) (hs : SB false p) (hl : LastExpr p)
     (hc1 : compileProgram p = .ok (r1, b1)) (hc2 : compileProgram (wrap p) = .ok (r2, b2))
     (F : Nat) (t : Tree) (out : List Text) (h1 : specText cc F src1 = .value t out) :
-    (∃ n o, ∀ k, evalText cc (n + k) src1 = .error .index o) ∨ (∃ n o, ∀ k, evalText cc (n + k) src2 = .error .index o) ∨
+    TextHitsLimit cc src1 ∨ TextHitsLimit cc src2 ∨
     ∃ n, ∀ k, evalText cc (n + k) src1 = evalText cc (n + k) src2 :=
   C01.C01_same_meaning_same_behaviour_with_functions cc src1 src2 p (wrap p) r1 r2 b1 b2
     hp1 hc1 (src6Top_of_sb p hs) hp2 hc2 (src6Top_wrapAs hoofd (by decide) p hs)
